@@ -1,6 +1,7 @@
 package gen
 
 import (
+	"bytes"
 	"pgregory.net/rapid"
 
 	"verifharness/internal/harn"
@@ -10,6 +11,9 @@ import (
 // Sizes controls how large the rare "big" classes get.
 type Sizes struct {
 	Big bool // allow 64 KiB strings, 65535-element lists, 1 MiB data
+	// FillStat: about one stat record in 25 is filled to within 0..4 bytes of the largest
+	// representable record (its own size field 65529..65533, the whole record 65531..65535)
+	FillStat bool
 }
 
 func U8() *rapid.Generator[uint8] {
@@ -82,6 +86,18 @@ func Stat(sz Sizes) *rapid.Generator[refwire.D] {
 			Length: U64().Draw(t, "length"),
 		}
 		room := 65535 - 2 - 39 - 8 // what is left for the four strings
+		if sz.FillStat && rapid.IntRange(0, 24).Draw(t, "fillstat") == 0 {
+			total := room - rapid.IntRange(0, 4).Draw(t, "under")
+			a := rapid.IntRange(0, total).Draw(t, "cut1")
+			b := rapid.IntRange(0, total-a).Draw(t, "cut2")
+			c := rapid.IntRange(0, total-a-b).Draw(t, "cut3")
+			if rapid.Bool().Draw(t, "onebig") {
+				a, b, c = total-3, 1, 1
+			}
+			fill := func(n int, ch byte) harn.B { return harn.B(bytes.Repeat([]byte{ch}, n)) }
+			d.Name, d.UID, d.GID, d.MUID = fill(a, 'n'), fill(b, 'u'), fill(c, 'g'), fill(total-a-b-c, 'm')
+			return d
+		}
 		d.Name = Str(sz, room).Draw(t, "name")
 		room -= len(d.Name)
 		d.UID = Str(sz, room).Draw(t, "uid")
